@@ -41,12 +41,14 @@ class R:
     def u32(self):
         self.need(4); v = int.from_bytes(self.b[self.i:self.i + 4], "big"); self.i += 4; return v
 
+    lenient = False
+
     def vint(self):
         v = 0
         for k in range(4):
             c = self.u8(); v |= (c & 0x7F) << (7 * k)
             if not c & 0x80:
-                if k > 0 and c == 0:
+                if k > 0 and c == 0 and not self.lenient:
                     raise Malformed("non-minimal variable byte integer")
                 return v
         raise Malformed("variable byte integer longer than 4 bytes")
@@ -65,6 +67,8 @@ def props(r, kind, strict_once=True):
     """list of (id, value) in wire order"""
     n = r.vint(); r.need(n)
     sub = R(r.b[r.i:r.i + n]); r.i += n
+    sub.lenient = r.lenient
+    if r.lenient: strict_once = False
     out = []; seen = set()
     while not sub.eof():
         pid = sub.u8()
@@ -100,9 +104,11 @@ def split_stream(data):
     return pkts, bytes(data[i:])
 
 
-def decode(pkt):
-    """strict decode of one complete packet -> dict; raises Malformed"""
-    r = R(pkt)
+def decode(pkt, lenient=False):
+    """strict decode of one complete packet -> dict; raises Malformed.
+    lenient=True tolerates what DESIGN.md lists as receiver-side leniencies the properties do not forbid: non-minimal variable byte
+    integers, a repeated single-valued property, DUP with QoS 0 and Packet Identifier 0 in an inbound packet"""
+    r = R(pkt); r.lenient = lenient
     b0 = r.u8(); t = b0 >> 4; fl = b0 & 15
     rl = r.vint()
     if len(pkt) - r.i != rl:
@@ -113,9 +119,9 @@ def decode(pkt):
     if kind == "publish":
         dup, qos, retain = fl >> 3, (fl >> 1) & 3, fl & 1
         if qos == 3: raise Malformed("QoS 3")
-        if qos == 0 and dup: raise Malformed("DUP with QoS 0")
+        if qos == 0 and dup and not lenient: raise Malformed("DUP with QoS 0")
         topic = r.bin(); pid = r.u16() if qos else None
-        if qos and pid == 0: raise Malformed("packet id 0")
+        if qos and pid == 0 and not lenient: raise Malformed("packet id 0")
         p = props(r, kind)
         return {"type": kind, "dup": dup, "qos": qos, "retain": retain, "topic": topic, "pid": pid, "props": p, "payload": r.rest()}
     want = 2 if kind in ("pubrel", "subscribe", "unsubscribe") else 0
@@ -142,7 +148,7 @@ def decode(pkt):
         d["sp"] = f & 1; d["rc"] = r.u8(); d["props"] = props(r, kind)
     elif kind in ("puback", "pubrec", "pubrel", "pubcomp"):
         d["pid"] = r.u16(); d["rc"] = 0; d["props"] = []
-        if d["pid"] == 0: raise Malformed("packet id 0")
+        if d["pid"] == 0 and not lenient: raise Malformed("packet id 0")
         if not r.eof():
             d["rc"] = r.u8()
             if not r.eof(): d["props"] = props(r, kind)
